@@ -751,47 +751,74 @@ class PteraTransformer(NodeTransformer):
             x = _ptera_interact('x', None, y + z)
         """
 
-        def _decompose(targets, transform):
-            var_all = _gensym()
-            ass_all = ast.copy_location(
+        targets = node.targets
+        if len(targets) == 1 and not isinstance(
+            targets[0], (ast.Tuple, ast.List)
+        ):
+            return self.make_interaction(
+                targets[0], None, self.visit(node.value), orig=node
+            )
+
+        # Several targets and/or unpacking: evaluate the value once, then
+        # assign each target from it, left to right
+        var_all = _gensym()
+        accum = [
+            ast.copy_location(
                 ast.Assign(
                     targets=[ast.Name(id=var_all, ctx=ast.Store())],
                     value=self.visit(node.value),
                 ),
                 node,
             )
-            accum = [ass_all]
-            for i, tgt in enumerate(targets):
-                accum += self.visit_Assign(
-                    ast.copy_location(
-                        ast.Assign(
-                            targets=[tgt],
-                            value=transform(
-                                ast.Name(id=var_all, ctx=ast.Load()), i
-                            ),
-                        ),
-                        node,
+        ]
+        for tgt in targets:
+            accum += self._assign_from(
+                tgt, ast.Name(id=var_all, ctx=ast.Load()), node
+            )
+        return accum
+
+    def _assign_from(self, target, value, orig):
+        """Assign value to target, reporting each variable it binds.
+
+        Unpacking is left to Python (same protocol, same errors): the
+        value is unpacked into temporaries arranged like the target, then
+        the temporaries are assigned to the actual targets in order.
+        """
+        if not isinstance(target, (ast.Tuple, ast.List)):
+            return self.make_interaction(target, None, value, orig=orig)
+
+        # One level at a time, like Python does: unpack into temporaries,
+        # then assign (or unpack further) each element in order
+        pieces = []
+        mirror = []
+        for elt in target.elts:
+            tmp = _gensym()
+            if isinstance(elt, ast.Starred):
+                pieces.append((elt.value, tmp))
+                mirror.append(
+                    ast.Starred(
+                        value=ast.Name(id=tmp, ctx=ast.Store()),
+                        ctx=ast.Store(),
                     )
                 )
-            return accum
+            else:
+                pieces.append((elt, tmp))
+                mirror.append(ast.Name(id=tmp, ctx=ast.Store()))
 
-        targets = node.targets
-        if len(targets) > 1:
-            return _decompose(targets, lambda value, i: value)
-
-        elif isinstance(targets[0], ast.Tuple):
-            return _decompose(
-                targets[0].elts,
-                lambda value, i: ast.Subscript(
+        stmts = [
+            ast.copy_location(
+                ast.Assign(
+                    targets=[type(target)(elts=mirror, ctx=ast.Store())],
                     value=value,
-                    slice=ast.Index(value=ast.Constant(i)),
-                    ctx=ast.Load(),
                 ),
+                orig,
             )
-        else:
-            return self.make_interaction(
-                targets[0], None, self.visit(node.value), orig=node
+        ]
+        for elt, tmp in pieces:
+            stmts += self._assign_from(
+                elt, ast.Name(id=tmp, ctx=ast.Load()), orig
             )
+        return stmts
 
     def visit_AugAssign(self, node):
         if isinstance(node.target, ast.Name) and self.should_instrument(
